@@ -154,6 +154,11 @@ def e_add(a, b):
     if not sa and not sb:
         return a + b
     if _fp(a, b):
+        # exact IEEE identity that spares the solver a bit-blasted adder: (+0) + y = y, except that (+0) + (-0) = +0
+        for x, y in ((a, b), (b, a)):
+            if not is_sym(x) and not _isinf(x) and x == 0:
+                y = lift(y, 'f')
+                return z3.If(z3.fpIsZero(y), z3.FPVal(0.0, F32), y)
         return z3.fpAdd(RNE, lift(a, 'f'), lift(b, 'f'))
     if not sa and a == 0:
         return lift(b, _num(kind_of(b))) if kind_of(b) == 'b' else b
@@ -187,6 +192,16 @@ def e_mul(a, b):
     if not sa and not sb:
         return a * b
     if _fp(a, b):
+        # exact IEEE identities for the constants 1 and +0 (no bit-blasted multiplier): y * 1 = y;  y * (+0) = NaN for NaN/inf, else a zero
+        # with the sign of y
+        for x, y in ((a, b), (b, a)):
+            if not is_sym(x) and not _isinf(x):
+                if x == 1:
+                    return lift(y, 'f')
+                if x == 0:
+                    y = lift(y, 'f')
+                    return z3.If(z3.Or(z3.fpIsNaN(y), z3.fpIsInf(y)), z3.fpNaN(F32),
+                                 z3.If(z3.fpIsNegative(y), z3.FPVal(-0.0, F32), z3.FPVal(0.0, F32)))
         return z3.fpMul(RNE, lift(a, 'f'), lift(b, 'f'))
     for x, y in ((a, b), (b, a)):
         if not is_sym(x):
@@ -1314,7 +1329,18 @@ class swapped_params:
             self.saved.append((d, name, d[name]))
             if d is mod._parameters and d[name] is not None and d[name].requires_grad:
                 sym.requires_grad_(True)
+            old = d[name]
             d[name] = sym
+            # tensors of the same module that share the storage of the replaced one (x.detach(), x.data, views of the
+            # whole) are what an in-place write to the real parameter would also change: alias them to the symbolic value
+            if isinstance(old, torch.Tensor) and old.numel() > 0:
+                for d2 in (mod._parameters, mod._buffers, mod.__dict__):
+                    for n2, t2 in list(d2.items()):
+                        if (d2 is d and n2 == name) or not isinstance(t2, torch.Tensor) or isinstance(t2, SymTensor):
+                            continue
+                        if t2 is old or (t2.shape == old.shape and t2.numel() > 0 and t2.data_ptr() == old.data_ptr()):
+                            self.saved.append((d2, n2, t2))
+                            d2[n2] = sym if t2.requires_grad else sym.detach()
         return self
 
     def __exit__(self, *a):
